@@ -5,6 +5,7 @@ import (
 	"crypto/sha1"
 	"fmt"
 	"os"
+	"reflect"
 	"strings"
 	"testing"
 
@@ -20,6 +21,32 @@ type C15Case struct {
 	Ini      string   `json:"ini"`
 	CompArgs []string `json:"comp_args"`
 	Reps     int      `json:"reps"`
+	// ColonKeys: IDs of pre-populated string-keyed map options whose keys get
+	// the prefix "host:" once the parser is built (keys such as host:8080 can
+	// only be stored by the program itself: every textual source splits an
+	// entry at its first colon)
+	ColonKeys []string `json:"colon_keys,omitempty"`
+}
+
+// c15Build builds the parser of the scenario and applies ColonKeys.
+func c15Build(c *C15Case) *Built {
+	b := Build(c.D)
+	if b.Err != nil {
+		return b
+	}
+	for _, id := range c.ColonKeys {
+		f, ok := b.OptVal[id]
+		if !ok || f.Kind() != reflect.Map || f.Type().Key().Kind() != reflect.String || f.Len() == 0 {
+			continue
+		}
+		nm := reflect.MakeMap(f.Type())
+		it := f.MapRange()
+		for it.Next() {
+			nm.SetMapIndex(reflect.ValueOf("host:"+it.Key().String()).Convert(f.Type().Key()), it.Value())
+		}
+		f.Set(nm)
+	}
+	return b
 }
 
 var _ = Register("C15", func() interface{} { return new(C15Case) }, func(c interface{}) string { return c15Oracle(c.(*C15Case)) })
@@ -81,6 +108,11 @@ func genC15(t *rapid.T) *C15Case {
 		}
 	}
 	c := &C15Case{D: d, Reps: 40}
+	for _, o := range d.AllOpts() {
+		if (o.Kind == KMapSS || o.Kind == KMapSI) && len(o.Initial) >= 2 && rapid.IntRange(0, 3).Draw(t, "colonKeys") == 0 {
+			c.ColonKeys = append(c.ColonKeys, o.ID)
+		}
+	}
 	// families of similar command names so that a typo can be equally close to several
 	if rapid.IntRange(0, 2).Draw(t, "similarNames") == 0 {
 		fam := rapid.SampledFrom([][]string{{"pull", "push", "purl"}, {"start", "stark", "stare"}, {"list", "lint", "lisp"}}).Draw(t, "family")
@@ -191,7 +223,7 @@ func c15Eval(c *C15Case) (parts map[string]string, pm string) {
 	parts = map[string]string{}
 	pm = Safely(func() {
 		// help + man + ini output on a freshly built parser (after defaults)
-		b := Build(c.D)
+		b := c15Build(c)
 		if b.Err != nil {
 			parts["setup"] = b.Err.Error()
 			return
@@ -203,7 +235,7 @@ func c15Eval(c *C15Case) (parts map[string]string, pm string) {
 		b.P.WriteManPage(&buf)
 		parts["man"] = buf.String()
 		// parse
-		b2 := Build(c.D)
+		b2 := c15Build(c)
 		rest, err := b2.P.ParseArgs(append([]string{}, c.Args...))
 		if err != nil {
 			if fe := FlagsErr(err); fe != nil {
@@ -222,14 +254,14 @@ func c15Eval(c *C15Case) (parts map[string]string, pm string) {
 		b2.P.WriteHelp(&buf)
 		parts["help-after-parse"] = buf.String()
 		// ini input
-		b3 := Build(c.D)
+		b3 := c15Build(c)
 		if err := flags.NewIniParser(b3.P).Parse(strings.NewReader(c.Ini)); err != nil {
 			parts["ini-error"] = err.Error()
 		}
 		parts["ini-values"] = iniFields(b3)
 		// completion
 		if c.CompArgs != nil {
-			b4 := Build(c.D)
+			b4 := c15Build(c)
 			b4.P.CompletionHandler = func(items []flags.Completion) {
 				var sb strings.Builder
 				for _, it := range items {
